@@ -34,7 +34,7 @@ def pmap(fn, items, jobs=16, chunksize=1, ordered=False):
     """Yield fn(item) for every item (fn must be a module-level function)."""
     items = list(items)
     if jobs <= 1 or len(items) <= 1:
-        _init()
+        warnings.simplefilter("ignore")
         for it in items:
             yield _call((fn, it))
         return
